@@ -14,7 +14,16 @@ same, independently computed factor; integer slots only where the factor is inte
 Functions whose result has the dimension of an input slot (`keep`) must return a unyt object
 commensurable with that slot (aspect `units-dropped`).  Rounding / integer casts / explicit
 subok=False / IO templates (`nocov`) are checked for type, dimensions and shape only.  Bare out=
-buffers and text results are not part of C07 (they are in C06)."""
+buffers and text results are not part of C07 (they are in C06).
+Mixed configurations (lib_c07_mixed): every template with two or more array slots that carry units
+(histogram2d / histogramdd coordinates and weights=, dot / outer / cross / kron / convolve, interp
+x/xp/fp, linalg.solve / lstsq, where, clip bounds, concatenate ...) is also run with every non-empty
+proper subset of those slots bare (ndarray, nested list, ndarray holding the numbers of a quantity
+slot).  A bare argument counts as dimensionless: it is not re-expressed and the result must still be
+covariant (keys `C07[<function>:<template>:bare-<slots>:<aspect>]`, same aspects as above), and the
+call must agree with the one in which the bare slots are explicitly dimensionless quantities
+(aspects `bdl-dims`, `bdl-value`, `bdl-structure`; `bdl-raise` = bare + dimensionful accepted where
+dimensionless + dimensionful is refused with a unit error).  A refusal is always acceptable."""
 import os
 import random
 import sys
@@ -24,6 +33,7 @@ from common import Run, replay_script  # noqa: E402
 
 import lib_c06_catalogue as cat  # noqa: E402
 from lib_c06_harness import H_run07, make_slotdefs, replay_source  # noqa: E402
+import lib_c07_mixed as mx  # noqa: E402
 
 have, missing, handled_missing = cat.coverage()
 nfun = len(cat.dispatching_functions())
@@ -34,9 +44,13 @@ R = Run("C07",
         "system and re-expressed in another: dyadic custom registry (bit-exact), m/s/kg -> cm/ms/g "
         "(rtol 1e-9) and, thorough, inch/minute/lb; results compared as physical quantities, unit-less results numerically, out=/in-place "
         "slots likewise; dimension-preserving functions must return commensurable quantities.  Non-trivial = "
-        "the call succeeded in both systems and at least one slot was re-scaled.  Functions without a "
+        "the call succeeded in both systems and at least one slot was re-scaled.  Mixed configurations: every "
+        "template with >= 2 unit-carrying array slots again with each non-empty proper subset of them bare "
+        "(ndarray / list / ndarray with the numbers of a quantity slot): covariance with the bare slots held "
+        "fixed, and agreement with the call on explicitly dimensionless quantities.  Functions without a "
         "template: %s" % (len(have), nfun - len(missing), nfun, ", ".join(missing) or "none"),
-        "finite catalogue x 2 system pairs x 1 data draw (quick) / 4 pairs x 4 draws (thorough)")
+        "finite catalogue x 2 system pairs x 1 data draw (quick) / 4 pairs x 4 draws (thorough); mixed "
+        "configurations: all bare subsets x 3 forms per template, same pairs and draws")
 
 PAIRS = [("D0", "D1"), ("O0", "O2")]
 DRAWS = 1
@@ -90,7 +104,99 @@ for c in cat.CASES:
                 seen.add(key)
                 R.fail(key, "%s with %s, %s -> %s: %s" % (c.expr, c.variant, s0, s1, msg), replay_for(sd, c, s0, s1, aspect))
 
+# ---------------------------------------------------------------------------------------------
+# mixed configurations: templates with >= 2 quantity slots, every non-empty proper subset of them
+# bare (ndarray, nested list, ndarray with the numbers of a quantity slot); see lib_c07_mixed for the two relations checked.
+mcounts = {"ok": 0, "raises": 0, "skipped": 0, "bdl-ok": 0, "bdl-raises": 0, "configs": 0}
+mfuncs = set()
+mdup = set()
+
+
+def base_fails(c, aspect):
+    """one key per defect site: a mixed finding is not reported again when the all-quantity form of the same
+    template already fails with the same aspect (a wrong value is `value` or `bare-value` depending on whether
+    the result still carries units)"""
+    same = ("value", "bare-value") if aspect in ("value", "bare-value") else (aspect,)
+    return any("C07[%s:%s:%s]" % (c.fname, c.tid.split("/")[0] + sfx, a) in seen
+               for a in same for sfx in ("", c.tid[len(c.tid.split("/")[0]):]))
+
+
+for c in cat.CASES:
+    if c.text or c.tid.endswith("/obare"):
+        continue
+    if not mx.bare_subsets(c):
+        continue
+    tol = c.tol or 1e-9
+    for draw in range(DRAWS):
+        rng = random.Random("%d|%s|%s|%s|%d" % (seed, c.fname, c.tid, c.variant, draw))
+        try:
+            sd = make_slotdefs(c, rng)
+            configs = mx.mixed_configs(c, sd)
+        except Exception as e:
+            driver_errors.append("mixed %s:%s[%s] %r" % (c.fname, c.tid, c.variant, e))
+            continue
+        for bare, form, sdm, expr in configs:
+            mcounts["configs"] += 1
+            mfuncs.add(c.fname)
+            tag = "bare-" + "+".join(bare)
+            how = {"same-numbers": "ndarray holding the numbers of a quantity slot"}.get(form, form)
+            keep = c.keep if (c.keep and c.keep.partition("@")[0] not in bare) else None
+            scaled = any(d not in "-X1" for d, *_ in sdm.values())
+            ckey = "C07[%s:%s:%s]%s/%s" % (c.fname, c.tid, tag, c.variant, form)
+            # (cov) covariance with the bare slots held fixed
+            for s0, s1 in PAIRS:
+                try:
+                    st, found = H_run07(sdm, expr, s0, s1, keep=keep, tol=tol, nocov=c.nocov)
+                except Exception as e:
+                    driver_errors.append("mixed %s:%s[%s] %s %r" % (c.fname, c.tid, c.variant, tag, e))
+                    continue
+                mcounts[st] += 1
+                if st == "skipped":
+                    continue
+                R.case(ckey, nontrivial=(st == "ok" and scaled),
+                       sample={"expr": expr, "slots": c.variant, "bare": list(bare), "form": form, "systems": [s0, s1]}
+                       if draw == 0 and form == "list" and c.tid == "density" else None)
+                if st == "raises":
+                    continue
+                if c.garbage:
+                    found = [(a, m) for a, m in found if a not in ("value", "bare-value", "inexact")]
+                for aspect, msg in found:
+                    key = "C07[%s:%s:%s:%s]" % (c.fname, c.tid, tag, aspect)
+                    if key in seen:
+                        continue
+                    seen.add(key)
+                    if base_fails(c, aspect):
+                        mdup.add(key)       # the all-quantity form of this template already fails the same way
+                        continue
+                    R.fail(key, "%s with %s, %s as bare %s, %s -> %s: %s" % (expr, c.variant, "/".join(bare), how, s0, s1, msg),
+                           replay_script(mx.replay_cov(sdm, expr, s0, s1, keep, tol, c.nocov, aspect)))
+            # (bdl) bare == dimensionless
+            if c.garbage or form != "ndarray":
+                continue
+            for s0 in sorted({p[0] for p in PAIRS}):
+                try:
+                    st, found = mx.M_run(sdm, expr, c.expr, bare, s0, tol)
+                except Exception as e:
+                    driver_errors.append("mixed-bdl %s:%s[%s] %s %r" % (c.fname, c.tid, c.variant, tag, e))
+                    continue
+                mcounts["bdl-" + st] += 1
+                R.case(ckey + "/bdl", nontrivial=(st == "ok"))
+                if st == "raises":
+                    continue
+                if c.nocov:
+                    found = [(a, m) for a, m in found if a != "bdl-value"]
+                for aspect, msg in found:
+                    key = "C07[%s:%s:%s:%s]" % (c.fname, c.tid, tag, aspect)
+                    if key in seen:
+                        continue
+                    seen.add(key)
+                    R.fail(key, "%s with %s, %s as bare %s, in %s: %s" % (expr, c.variant, "/".join(bare), how, s0, msg),
+                           replay_script(mx.replay_bdl(sdm, expr, c.expr, bare, s0, tol, aspect)))
+
 R.notes.append("outcomes: %r" % counts)
+R.notes.append("mixed configurations (subset of the array slots bare: ndarray, list, ndarray with the numbers of a quantity slot): %d functions, %r; %d mixed "
+               "findings coincide with a failing all-quantity key of the same template and aspect and are not re-reported"
+               % (len(mfuncs), mcounts, len(mdup)))
 R.notes.append("functions/templates that raise on quantities in both systems (no covariance statement): " +
                "; ".join("%s(%s)" % (f, ",".join(sorted(t))) for f, t in sorted(raises.items())))
 if handled_missing:
